@@ -529,6 +529,41 @@ def replay(ctx, path):
     ctx.min_distinct = 1
 
 
+def twin_byte_cases(ctx):
+    """documents converted one after the other in ONE process whose pools hold the same raw bytes with different meanings: a text in a UTF-8 pool
+    and the text the same bytes spell in a UTF-16 pool (and the reverse order, and CESU-8 next to UTF-8). Anything a conversion keeps beyond the
+    document it belongs to shows as the other document's text."""
+    rng = ctx.rng("c26-twins")
+    n = 0
+    for k in range(40 if ctx.quick else 2000):
+        m = rng.choice((2, 2, 4, 6, 8))
+        if k % 3 == 0:
+            a = "".join(rng.choice("abcdefghijklmnopqrstuvwxyz") for _ in range(m))       # ASCII pairs = CJK code units
+        elif k % 3 == 1:
+            a = "".join(rng.choice("\u00e9\u00fc\u0416\u03a9") for _ in range(m // 2))         # 2-byte UTF-8 sequences = one UTF-16 unit each
+        else:
+            a = "".join(rng.choice("\u4e2d\u6587\u20ac") for _ in range(2)) + "ab"                 # 3-byte sequences, 8 bytes in all
+        raw = a.encode("utf-8")
+        if len(raw) % 2:
+            raw += b"x"
+            a += "x"
+        b = raw.decode("utf-16-le", "surrogatepass")
+        if any(0xD800 <= ord(c) < 0xE000 or ord(c) in (0xFFFE, 0xFFFF) or ord(c) < 0x20 for c in b):
+            continue
+        docs = [(a, True), (b, False)]
+        if k % 2:
+            docs.reverse()
+        for text, utf8 in docs:
+            for where in ("attr", "text"):
+                root = W.Elem(None, "r", attrs=[W.Attr(None, "v", W.TYPE_STRING, value=text)] if where == "attr" else [],
+                              children=[W.Text(text)] if where == "text" else [])
+                g = {"special": "same-bytes-other-encoding", "pool": "utf8" if utf8 else "utf16", "elements": 1, "depth": 0, "nsdecls": 0, "types": [],
+                     "text": [where, len(raw)], "resmap": True}
+                run_case(ctx, W.Doc(root, utf8=utf8), g, "twin%d" % k)
+                n += 1
+    ctx.count("documents_with_same_pool_bytes_in_the_other_encoding", n)
+
+
 def run(ctx):
     ctx.rule = ("random XML trees (depth <= 6, <= 40 elements; nested/re-declared namespace scopes; attributes of every Res_value type incl. raw values kept; "
                 "text chunks; resource-id map with known, unknown and name-stripped ids; UTF-8 and UTF-16 pools incl. 2-byte/2-unit length forms; comments; "
@@ -543,10 +578,12 @@ def run(ctx):
                        "trusted base: vf.model.axmlw (round-tripped through its own reader, which also reads every well-formed shipped AXML file)"]
     for i, (doc, feats) in enumerate(fixed_cases(ctx)):
         run_case(ctx, doc, feats, "fixed%d" % i)
+    twin_byte_cases(ctx)
     n = 3200 if ctx.quick else 240000
     per = n // 16
     ctx.run_shards(MOD, "shard", [[k * per, (k + 1) * per] for k in range(16)], timeout=1500)
     ctx.require_counter("AXMLPrinter", 500)
     ctx.require_counter("get_xml_reparse", 200)
     ctx.require_counter("cases_base", 50)
+    ctx.require_counter("documents_with_same_pool_bytes_in_the_other_encoding", 40)
     ctx.min_distinct = 50
